@@ -15,6 +15,8 @@ pub struct SimRng {
     pub failed: bool,
     /// largest single fill request, for reporting
     pub max_fill: usize,
+    /// a virtual prefix of this many all-ones bytes in front of the script (a long stuck-at fault)
+    pub stuck_ones: usize,
 }
 
 impl SimRng {
@@ -31,12 +33,21 @@ impl SimRng {
             fail_at: u64::MAX,
             failed: false,
             max_fill: 0,
+            stuck_ones: 0,
+        }
+    }
+    #[inline]
+    fn byte_at(&self, pos: usize) -> u8 {
+        if pos < self.stuck_ones {
+            0xff
+        } else {
+            self.bytes.get(pos - self.stuck_ones).copied().unwrap_or(0)
         }
     }
     #[inline]
     fn take(&mut self, dest: &mut [u8]) {
         for d in dest.iter_mut() {
-            *d = self.bytes.get(self.pos).copied().unwrap_or(0);
+            *d = self.byte_at(self.pos);
             self.pos += 1;
         }
     }
@@ -44,12 +55,12 @@ impl SimRng {
     pub fn word_at(&self, pos: usize, i: usize) -> u32 {
         let mut b = [0u8; 4];
         for (k, x) in b.iter_mut().enumerate() {
-            *x = self.bytes.get(pos + 4 * i + k).copied().unwrap_or(0);
+            *x = self.byte_at(pos + 4 * i + k);
         }
         u32::from_le_bytes(b)
     }
     pub fn healed(&self) -> bool {
-        self.pos >= self.bytes.len()
+        self.pos >= self.bytes.len() + self.stuck_ones
     }
 }
 
